@@ -31,9 +31,8 @@ Definition zero_env : env := fun _ => 0.
 Theorem C03_sync_changes_only_at_own_edge D e cur d i b : 0 <= b -> d <> 0%nat ->
   only_dom D d i b -> ~ In i (map fst e) ->
   clk_edge (g_doms D d) cur (apply_writes e cur) = false ->
-  (d_async (g_doms D d) = true -> sd_reset_less (g_tab D i) = false) ->     (* excludes exactly F7 *)
   Z.testbit (step D e cur i) b = Z.testbit (cur i) b \/
-  (rst_rise (g_doms D d) cur (apply_writes e cur) = true /\
+  (rst_rise (g_doms D d) cur (apply_writes e cur) = true /\ sd_reset_less (g_tab D i) = false /\
    Z.testbit (step D e cur i) b = Z.testbit (sd_init (g_tab D i)) b).
 Proof. exact (no_clock_edge_keeps_or_resets D e cur d i b). Qed.
 Print Assumptions C03_sync_changes_only_at_own_edge.
@@ -49,19 +48,24 @@ Proof.
   - simpl. intros [H|[]]. discriminate.
 Qed.
 
-(* F7: on the faithful model a reset-less signal of an async-reset domain changes on a reset rise without any clock edge *)
-Theorem C03_sync_changes_only_at_own_edge_refuted :
-  exists D e cur d i b, 0 <= b /\ d <> 0%nat /\ only_dom D d i b /\ ~ In i (map fst e) /\
-    clk_edge (g_doms D d) cur (apply_writes e cur) = false /\
-    sd_reset_less (g_tab D i) = true /\
-    Z.testbit (step D e cur i) b <> Z.testbit (cur i) b.
+(* reset-less signals keep their value without an active clock edge, whatever the resets do (the former finding F7 —
+   a reset rise of an async domain ran the whole process — is repaired in the simulator; the old witness now holds) *)
+Theorem C03_reset_less_changes_only_at_clock_edge D e cur d i b : 0 <= b -> d <> 0%nat ->
+  only_dom D d i b -> ~ In i (map fst e) -> sd_reset_less (g_tab D i) = true ->
+  clk_edge (g_doms D d) cur (apply_writes e cur) = false ->
+  Z.testbit (step D e cur i) b = Z.testbit (cur i) b.
+Proof. exact (reset_rise_keeps_reset_less D e cur d i b). Qed.
+Print Assumptions C03_reset_less_changes_only_at_clock_edge.
+
+Example C03_reset_rise_alone_example :
+  only_dom ex_D 1%nat 3%nat 0 /\ sd_reset_less (g_tab ex_D 3%nat) = true /\
+  rst_rise (g_doms ex_D 1%nat) zero_env (apply_writes [(1%nat, 1)] zero_env) = true /\
+  step ex_D [(1%nat, 1)] zero_env 3%nat = 0 /\ step ex_D [(1%nat, 1)] zero_env 2%nat = 3 /\
+  step ex_D [(0%nat, 1)] zero_env 3%nat = 1.
 Proof.
-  exists ex_D, [(1%nat, 1)], zero_env, 1%nat, 3%nat, 0. repeat split; try reflexivity; try lia.
-  - intros p [<-|[]] _. reflexivity.
-  - simpl. intros [H|[]]. discriminate.
-  - vm_compute. discriminate.
+  repeat split; try reflexivity.
+  intros p [<-|[]] _. reflexivity.
 Qed.
-Print Assumptions C03_sync_changes_only_at_own_edge_refuted.
 
 (* edges and resets of other domains never affect it: nothing changes unless the domain's own waker fires *)
 Theorem C03_other_domains_never_affect D e cur d i b : 0 <= b -> d <> 0%nat ->
@@ -263,7 +267,7 @@ Theorem C03_reset_inserter_trace_loads_init D ctl pre e cur0 p c i b : tab_ok (g
   let s := state_after (step D') pre cur0 in
   0 <= b -> sole_driver D p i b -> fst p <> 0%nat -> lookup (fst p) ctl = Some c ->
   Z.testbit (um (g_tab D) (snd p) i) b = true -> sd_reset_less (g_tab D i) = false ->
-  fired (g_doms D (fst p)) s (apply_writes e s) = true ->
+  clk_edge (g_doms D (fst p)) s (apply_writes e s) = true ->
   ctl_on (apply_writes e s) c = true ->
   Z.testbit (state_after (step D') (pre ++ [e]) cur0 i) b = Z.testbit (sd_init (g_tab D i)) b.
 Proof. intros Ht Hc. exact (reset_inserter_trace_loads_init D ctl Ht Hc pre e cur0 p c i b). Qed.
